@@ -812,7 +812,7 @@ class Interp(object):
             return unk("modattr", o.name, a)
         if isinstance(o, Rat):
             if a == "T":
-                return Rat.atom(Fn("T", (o,)))
+                return mk_T(o)
             if a == "real":
                 return o if o.is_real() else Rat.atom(Fn("real", (o,)))
             if a == "imag":
@@ -1146,6 +1146,8 @@ class Interp(object):
         if name == "reshape":
             return Rat.atom(Fn("reshape", (x,) + tuple(args)))
         if name == "transpose":
+            if not args and not kwargs:
+                return mk_T(x)
             return Rat.atom(Fn("T", (x,) + tuple(args)))
         if name == "view":
             return Rat.atom(Fn("view", (x,) + tuple(args)))
@@ -1203,6 +1205,48 @@ def _itkey(it):
 
 
 CMP_NAMES = {"Lt": "<", "LtE": "<=", "Gt": ">", "GtE": ">=", "Eq": "==", "NotEq": "!="}
+
+
+def mk_T(x):
+    """transpose with the algebra pushed inwards: T(T(a)) = a, T(a.b) = T(b).T(a), T(pinv(M)) = pinv(T(M)),
+    T(M[r, c]) = T(M)[c, r], T(S) = S for symbols flagged symmetric; elementwise products and sums distribute."""
+    if not isinstance(x, Rat):
+        return Rat.atom(Fn("T", (x,)))
+    if x.is_const():
+        return x
+
+    def t_atom(a):
+        if isinstance(a, Sym):
+            if "symmetric" in a.flags or "scalar" in a.flags or "int" in a.flags or "size" in a.flags:
+                return Rat.atom(a)
+            if "array" in a.flags:
+                return Rat.atom(Fn("T", (Rat.atom(a),)))
+            return None
+        if isinstance(a, Fn):
+            if a.name == "T" and len(a.args) == 1 and isinstance(a.args[0], Rat):
+                return a.args[0]
+            if a.name == "dot" and len(a.args) == 2 and all(isinstance(y, Rat) for y in a.args):
+                return Rat.atom(Fn("dot", (mk_T(a.args[1]), mk_T(a.args[0]))))
+            if a.name in ("pinv", "inv") and isinstance(a.args[0], Rat):
+                return Rat.atom(Fn(a.name, (mk_T(a.args[0]),) + tuple(a.args[1:])))
+            if a.name == "getitem" and isinstance(a.args[0], Rat) and isinstance(a.args[1], tuple) and len(a.args[1]) == 2 \
+                    and all(isinstance(i, tuple) and i and i[0] == "slice" for i in a.args[1]):
+                return Rat.atom(Fn("getitem", (mk_T(a.args[0]), (a.args[1][1], a.args[1][0]))))
+            if a.name in ("identity", "diagmat"):
+                return Rat.atom(a)
+        return None
+    if not x.den_is_one():
+        return Rat.atom(Fn("T", (x,)))
+    out = Rat({})
+    for m, c in x.num.items():
+        t = Rat.const(c)
+        for a, e in m:
+            ta = t_atom(a)
+            if ta is None:
+                return Rat.atom(Fn("T", (x,)))
+            t = t * rpow(ta, e)
+        out = out + t
+    return out
 
 
 def mk_cmp(op, l, r):
@@ -1630,6 +1674,8 @@ def _real(I, a, k, e, env, ctx):
 
 @ext("numpy.transpose")
 def _transpose(I, a, k, e, env, ctx):
+    if len(a) == 1 and isinstance(a[0], Rat) and not k:
+        return mk_T(a[0])
     if a and isinstance(a[0], Rat):
         return Rat.atom(Fn("T", tuple(a)))
     return NotImplemented
